@@ -393,17 +393,24 @@ impl FixtureDatabase {
                 .iter()
                 .map(|entry| (entry.key().clone(), Arc::clone(entry.value())))
                 .collect();
-            let to_remove: Vec<PathBuf> = candidates
+            let to_remove: Vec<(PathBuf, Arc<String>)> = candidates
                 .into_iter()
                 .filter(|(path, cached)| {
                     std::fs::read_to_string(path).is_ok_and(|on_disk| on_disk == **cached)
                 })
                 .take(to_remove_count)
-                .map(|(path, _)| path)
                 .collect();
 
-            for path in to_remove {
-                self.file_cache.remove(&path);
+            for (path, compared) in to_remove {
+                // A change notification may have replaced the text since it was compared with
+                // the file: drop the entry only if it still is the text that was compared
+                if self
+                    .file_cache
+                    .remove_if(&path, |_, current| Arc::ptr_eq(current, &compared))
+                    .is_none()
+                {
+                    continue;
+                }
                 // Also clean related caches for consistency
                 self.line_index_cache.remove(&path);
                 self.ast_cache.remove(&path);
